@@ -92,14 +92,16 @@ def mem_total_gb():
 
 def harness_need_gb(h):
     """Expected peak resident memory of a harness (GB): its need= key (measured peak + 20 %, written by bin/update-est for
-    every harness measured above 2.5 GB), else half of an explicit mem= cap, else 3 GB (every quick harness has been
+    every harness measured above 2.5 GB), else half of an explicit mem= cap, else 2 GB (every quick harness has been
     measured: no need= means it stayed below 2.5 GB).  The first version defaulted to 9 GB for anything slower than 120 s,
     which admitted only five solver processes at a time and doubled the wall-clock time of C01."""
     if h.get("need"):
         return float(h["need"])
     if h.get("mem"):
         return max(3.0, float(h["mem"]) * 0.5)
-    return 3.0
+    # (2 GB: sixteen unmeasured-small harnesses at 3 GB each reserved 48 of the 52 GB budget and made the few large ones of
+    # C01 wait for them: 597 s wall for 366 s of work per core)
+    return 2.0
 
 
 def reserve_memory(need_gb, max_wait_s=3600):
